@@ -832,12 +832,18 @@ def _one_fdepsd(sh, rep, cp, cc, fd, np, r, o, params):
     for k_ in ("resp", "nbins", "T0", "rolloff", "hpfilter", "winends"):
         sh.count("opt:%s=%s" % (k_, o[k_]))
     sh.count("opt:resp=%s,nbins=%s" % (resp, nbins))
+    sig_keep, freq_keep = np.array(sig, copy=True), np.array(freq, copy=True)
     try:
         fde = fd.fdepsd(sig, sr, freq, Q, **kw)
     except Exception as e:
         rep("exception:fdepsd", case, {"exc": repr(e)[:400]},
             {**tags, "exc_type": type(e).__name__})
         return
+    sh.count("mon:fde-inputs-unmutated")
+    if not (np.array_equal(sig, sig_keep) and np.array_equal(freq, freq_keep)
+            and freq.dtype == freq_keep.dtype):
+        rep("fde-inputs-unmutated", case, {"sig_changed": bool(not np.array_equal(
+            sig, sig_keep))}, tags)
     LF = freq.size
     psd = fde.psd.values
     pk = fde.peakamp.values
